@@ -142,7 +142,7 @@ pub fn resolve(mods: &ModuleSet, loc: &Locator) -> Result<Graph> {
 
     let env = &mut Env::new();
     stdlib::import(env)?;
-    // The module's own scope, so that its declarations shadow the built-ins.
+    // The scope of the imported names, which shadow the built-ins.
     env.open();
 
     let tree = mods.get(loc).unwrap();
@@ -150,6 +150,8 @@ pub fn resolve(mods: &ModuleSet, loc: &Locator) -> Result<Graph> {
     for import in prog.imports() {
         declare_import(env, mods, loc, import)?;
     }
+    // The module's own scope, so that its declarations shadow the imported names.
+    env.open();
     for decl in prog.declarations() {
         declare_variable(env, decl)?;
     }
